@@ -14,6 +14,8 @@
      Shutdown poller  LShutdown (isClosed := 1, OnShutdown), LPollBegin (tick: close message to every connection of the
                       table when isListenClosed = 1, then := 2), LPollClose (idle connection with numInvoke = 0 closed),
                       LPollReturn (CloseIdles returned true), LPollEnd (returned false), LCtxExpire
+                      ghost earlypoll: some tick began while isListenClosed was still 0 (the accept loop had not yet
+                      noticed isClosed; the code wakes it with SetDeadline(now) 500 ms before the first tick)
      process          LExit (tars.Run returned after Shutdown returned; the process ends, every socket dies)
      clients          LSend
    numInvoke of a connection is the length of the ghost list [busy]. *)
@@ -57,7 +59,8 @@ Record state := {
   queue : list req;                (* pool.JobQueue *)
   hand : option req;               (* job held by the dispatcher *)
   running : list req;              (* jobs on workers / handler goroutines that run *)
-  stopped : bool                   (* dispatcher took `stop` *)
+  stopped : bool;                  (* dispatcher took `stop` *)
+  earlypoll : bool                 (* ghost: a poller tick began while the listener was still up (isListenClosed = 0) *)
 }.
 
 Inductive label :=
@@ -77,33 +80,37 @@ Definition remove_req (q : req) (l : list req) : list req := filter (fun x => ne
 Section Shutdown.
 Variable W : nat.        (* maxroutine: 0 = one goroutine per request, > 0 = worker pool of W workers *)
 Variable cap : N.        (* capacity of JobQueue *)
-Variable early : bool.   (* true: the pool is released when the accept loop exits (the code before the repair) *)
+Variable early : bool.   (* true: the pool is released when the accept loop exits (the code before fix 0e6f835);
+                            false: only after every receive loop has returned *)
 
 Definition init : state :=
   {| ph := SRun; listen := 0; inpoll := false; known := []; cst := fun _ => CNone; inmap := fun _ => false;
      notified := fun _ => false; polled := fun _ => false; busy := fun _ => []; pend := fun _ => None;
-     rs := fun _ _ => Fresh; queue := []; hand := None; running := []; stopped := false |}.
+     rs := fun _ _ => Fresh; queue := []; hand := None; running := []; stopped := false; earlypoll := false |}.
 
 Definition set_conn (s : state) (c : cid) (st : cstate) (im nt pl : bool) : state :=
   {| ph := ph s; listen := listen s; inpoll := inpoll s; known := known s; cst := upd (cst s) c st;
      inmap := upd (inmap s) c im; notified := upd (notified s) c nt; polled := upd (polled s) c pl;
      busy := busy s; pend := pend s; rs := rs s; queue := queue s; hand := hand s; running := running s;
-     stopped := stopped s |}.
+     stopped := stopped s; earlypoll := earlypoll s |}.
 
 Definition set_srv (s : state) (p : sphase) (l : nat) (ip : bool) : state :=
   {| ph := p; listen := l; inpoll := ip; known := known s; cst := cst s; inmap := inmap s; notified := notified s;
      polled := polled s; busy := busy s; pend := pend s; rs := rs s; queue := queue s; hand := hand s;
-     running := running s; stopped := stopped s |}.
+     running := running s; stopped := stopped s; earlypoll := earlypoll s |}.
 
 (* request/pool part *)
 Definition set_req (s : state) (c : cid) (r : rid) (x : rstate) (b : list rid) (p : option rid)
                    (q : list req) (h : option req) (ru : list req) : state :=
   {| ph := ph s; listen := listen s; inpoll := inpoll s; known := known s; cst := cst s; inmap := inmap s;
      notified := notified s; polled := polled s; busy := upd (busy s) c b; pend := upd (pend s) c p;
-     rs := upd2 (rs s) c r x; queue := q; hand := h; running := ru; stopped := stopped s |}.
+     rs := upd2 (rs s) c r x; queue := q; hand := h; running := ru; stopped := stopped s; earlypoll := earlypoll s |}.
 
 Definition all_closed (s : state) : bool :=
   forallb (fun c => negb (inmap s c) || cstate_eqb (cst s c) CClosed) (known s).
+
+(* every receive loop has returned: no connection is left in tcpHandler.conns *)
+Definition all_gone (s : state) : bool := forallb (fun c => negb (inmap s c)) (known s).
 
 Definition is_down (p : sphase) : bool := match p with SDown => true | _ => false end.
 Definition alive (p : sphase) : bool := match p with SExited => false | _ => true end.
@@ -118,7 +125,8 @@ Definition step (s : state) (l : label) : option state :=
         Some (let s' := set_conn s c COpen true false false in
               {| ph := ph s'; listen := listen s'; inpoll := inpoll s'; known := c :: known s'; cst := cst s';
                  inmap := inmap s'; notified := notified s'; polled := polled s'; busy := busy s'; pend := pend s';
-                 rs := rs s'; queue := queue s'; hand := hand s'; running := running s'; stopped := stopped s' |})
+                 rs := rs s'; queue := queue s'; hand := hand s'; running := running s'; stopped := stopped s';
+                 earlypoll := earlypoll s' |})
       else None
   | LSend c r =>
       if rstate_eqb (rs s c r) Fresh then
@@ -165,11 +173,14 @@ Definition step (s : state) (l : label) : option state :=
   | LAcceptExit =>
       if closed_flag (ph s) && (listen s =? 0) then Some (set_srv s (ph s) 1 (inpoll s)) else None
   | LPoolStop =>
+      (* Handle after the accept loop: the unrepaired code releases the pool at once; the repaired code first waits
+         for every receive loop to return (recvDone.Wait()), i.e. no connection is left in the table *)
       match hand s with
-      | None => if early && negb (W =? 0) && negb (listen s =? 0) && negb (stopped s) then
+      | None => if negb (W =? 0) && negb (listen s =? 0) && negb (stopped s) && (early || all_gone s) then
                   Some {| ph := ph s; listen := listen s; inpoll := inpoll s; known := known s; cst := cst s;
                           inmap := inmap s; notified := notified s; polled := polled s; busy := busy s; pend := pend s;
-                          rs := rs s; queue := queue s; hand := hand s; running := running s; stopped := true |}
+                          rs := rs s; queue := queue s; hand := hand s; running := running s; stopped := true;
+                          earlypoll := earlypoll s |}
                 else None
       | Some _ => None end
   | LPollBegin =>
@@ -179,7 +190,7 @@ Definition step (s : state) (l : label) : option state :=
         Some {| ph := ph s; listen := (if listen s =? 1 then 2 else listen s); inpoll := true; known := known s;
                 cst := cst s; inmap := inmap s; notified := nt; polled := (fun _ => true); busy := busy s;
                 pend := pend s; rs := rs s; queue := queue s; hand := hand s; running := running s;
-                stopped := stopped s |}
+                stopped := stopped s; earlypoll := earlypoll s || (listen s =? 0) |}
       else None
   | LPollClose c =>
       if is_down (ph s) && inpoll s && inmap s c then
